@@ -5,8 +5,9 @@ down / pending lists), the replication configuration (or the placement rules the
 with the peers assigned to each rule) and the *steps* of the operator a checker proposed.
 
 The record types of this file (Store, Peer, Region, Step, the region simulator) are plain data and
-are shared with the C11 spec and with the models.  Label keys and values are case-normalised
-(lower-case ASCII) – `strings.EqualFold` is equality on them (assumption, see docs/C10.md).
+are shared with the C11 spec and with the models.  A label is looked up by key case-insensitively and
+location values are compared case-insensitively (`foldEq` = `strings.EqualFold` on ASCII), exactly where
+the pinned code does so (`GetLabelValue`, `CompareLocation`); everything else compares exactly.
 -/
 namespace PdModel.Spec.C10
 
@@ -73,9 +74,13 @@ def Region.newPeer (r : Region) (store role : Nat) : Peer :=
 
 def findStore (stores : List Store) (id : Nat) : Option Store := stores.find? (·.id == id)
 
-/-- value of a label, "" when absent (first match, as `GetLabelValue`) -/
+/-- `strings.EqualFold` on ASCII strings -/
+def foldEq (a b : String) : Bool := a.toList.map Char.toLower == b.toList.map Char.toLower
+
+/-- value of a label, "" when absent: the first label whose key equals `key` up to case
+    (`StoreInfo.GetLabelValue` uses `strings.EqualFold` on the keys) -/
 def Store.label (s : Store) (key : String) : String :=
-  match s.labels.find? (·.1 == key) with
+  match s.labels.find? (fun kv => foldEq kv.1 key) with
   | some kv => kv.2
   | none => ""
 
@@ -151,7 +156,7 @@ def isolationOK (labels : List String) (level : String) (co : List Store) (s : S
 
 /-- first location label on which both stores carry a value and the values differ -/
 def compareLocation (labels : List String) (a b : Store) : Option Nat :=
-  let i := labels.findIdx (fun k => a.label k != "" && b.label k != "" && a.label k != b.label k)
+  let i := labels.findIdx (fun k => a.label k != "" && b.label k != "" && !(foldEq (a.label k) (b.label k)))
   if i < labels.length then some i else none
 
 /-- how distinct the location of `s` is from the `co` stores (`core.DistinctScore`, base 100) -/
@@ -299,7 +304,7 @@ theorem check_iff (x : Input) (steps : List Step) : check x steps = true ↔ Hol
 def Store.fresh (c : Conf) (s : Store) : Bool :=
   s.isUp && s.notDown c && s.connected c && !s.busy && s.addAvail && s.sendSnap == 0 && s.recvSnap == 0 &&
   s.pending == 0 && s.regionCount == 0 && !(s.lowSpace c) &&
-  s.labels.all (fun kv => kv.1 != "specialUse")
+  s.labels.all (fun kv => !(foldEq kv.1 "specialUse"))
 
 /-- the region can be operated on: it has a voter leader among its peers, is not in a joint state
     and has one peer per store -/
